@@ -48,10 +48,13 @@ MODELS = ["gnb", "kmeans", "scaler", "linreg", "pca", "forest", "tree"]
 # forced-output schedule
 # ----------------------------------------------------------------------------------------------------------------------
 
-def make_schedule(seed):
-    """(call, index) -> value; depends only on the call's class/parameters (which must not depend on the data) and index"""
+def make_schedule(seed, period=None):
+    """(call, index) -> value; depends only on the call's class/parameters (which must not depend on the data) and index.
+    With `period` the real-valued outputs repeat every `period` calls up to a small jitter (slowly drifting noisy
+    centres: assignments of well separated data stay put while borderline records flip)"""
     def force(c, idx):
-        r = gen.SplitMix64(seed * 7919 + idx * 104729 + 17)
+        r = gen.SplitMix64(seed * 7919 + (idx if period is None else idx % period) * 104729 + 17)
+        jit = gen.SplitMix64(seed * 31 + idx).u01() * 0.04 if period is not None else 0.0
         o = c.obj
         cls = c.cls
         lo, hi = getattr(o, "lower", None), getattr(o, "upper", None)
@@ -72,8 +75,10 @@ def make_schedule(seed):
         sens = float(getattr(o, "sensitivity", 1.0))
         sens = sens if math.isfinite(sens) else 1.0
         u = r.u01()
+        if period is not None:
+            u = (u + jit) / 1.04
         if lo is not None and hi is not None and math.isfinite(lo) and math.isfinite(hi):
-            m = r.u01()
+            m = r.u01() if period is None else 0.5
             if m < 0.1:
                 return float(lo)
             if m < 0.2:
@@ -223,6 +228,20 @@ def gen_model_case(r, ctx, model):
         # both datasets spread over the domain: most clusters stay occupied under arbitrary forced centres
         n = max(n, 20)
         X1 = case["X"] = c08.gen_rows(r, n, lo, hi, r.choice(["in", "mixed"]))
+        if r.chance(0.5):
+            # well separated tight groups vs spread records, under slowly drifting forced centres
+            kind = "tight"
+            groups = [[r.uniform(lo[j], hi[j]) for j in range(d)] for _ in range(p["k"])]
+            X1 = case["X"] = [[g + (hi[j] - lo[j]) * r.uniform(-1e-4, 1e-4) for j, g in enumerate(groups[i % p["k"]])]
+                              for i in range(n)]
+            case["period"] = p["k"] * (1 + d)
+    if model in ("gnb", "scaler") and r.chance(0.3):
+        case["partial"] = True       # two partial_fit batches instead of one fit
+        if model == "gnb":
+            n = max(n, 4 * p["k"])
+            h = n // 2
+            X1 = case["X"] = c08.gen_rows(r, n, lo, hi, case["mode"] if case["mode"] != "onecorner" else "corner")
+            y1 = case["y"] = c08.gen_labels(r, h, p["k"]) + c08.gen_labels(r, n - h, p["k"])
     if model in ("forest", "tree"):
         kind = r.choice(["sameX", "perturb", "fresh"])
         if kind == "fresh":
@@ -231,7 +250,7 @@ def gen_model_case(r, ctx, model):
         X2 = [list(row) for row in X1]
     elif kind == "perturb":
         X2 = [[v + (hi[j] - lo[j]) * r.uniform(-1e-3, 1e-3) for j, v in enumerate(row)] for row in X1]
-    elif model == "kmeans":
+    elif model == "kmeans" or kind == "tight":
         X2 = c08.gen_rows(r, n, lo, hi, r.choice(["in", "mixed"]))
     else:
         X2 = c08.gen_rows(r, n, lo, hi, r.choice(["in", "mixed", "corner", "onecorner"]))
@@ -239,6 +258,8 @@ def gen_model_case(r, ctx, model):
     if y1 is not None:
         if model == "linreg":
             y2 = c08.gen_rows(r, n, p["ylo"], p["yhi"], r.choice(["in", "mixed", "corner"]))
+        elif case.get("partial"):
+            y2 = c08.gen_labels(r, n // 2, p["k"]) + c08.gen_labels(r, n - n // 2, p["k"])
         else:
             y2 = c08.gen_labels(r, n, p["k"])
     case["entry"] = model
@@ -291,9 +312,22 @@ def run_model(case, which, force):
     with warnings.catch_warnings():
         warnings.simplefilter("ignore")
         with c08.probing() as pr, seams.interpose(force=force) as calls:
-            model.fit(*c08.fit_args(case, X, y))
+            args = c08.fit_args(case, X, y)
+            if case.get("partial"):
+                h = len(X) // 2
+                if case["model"] == "gnb":
+                    model.partial_fit(args[0][:h], args[1][:h], classes=list(range(case["params"]["k"])))
+                    model.partial_fit(args[0][h:], args[1][h:])
+                else:
+                    model.partial_fit(args[0][:h])
+                    model.partial_fit(args[0][h:])
+            else:
+                model.fit(*args)
     ylab = None if y is None else [tuple(v) if isinstance(v, list) else v for v in y]
-    return model_release(case, model), calls, c08.occupancy(case, pr, ylab)
+    occ = c08.occupancy(case, pr, ylab)
+    if case.get("partial") and case["model"] == "gnb":
+        occ = [sorted(set(ylab[:len(X) // 2])), sorted(set(ylab[len(X) // 2:]))]
+    return model_release(case, model), calls, occ
 
 
 # ----------------------------------------------------------------------------------------------------------------------
@@ -314,7 +348,7 @@ def inputs_of(calls):
 def check_pair(ctx, case):
     """returns 'ok' | 'skipped' | 'violation'"""
     entry = case["entry"]
-    force = make_schedule(case["sched"])
+    force = make_schedule(case["sched"], case.get("period"))
     is_model = entry in MODELS
     try:
         if is_model:
@@ -330,6 +364,10 @@ def check_pair(ctx, case):
         if ctx.counters["refused"] <= 5:
             ctx.note(f"{entry}: {type(e).__name__}: {str(e)[:120]}")
         return "skipped"
+    if is_model and entry in ("kmeans", "forest", "tree"):
+        # a data-dependent NUMBER of iterations / trees is not an occupancy difference: compare the common prefix
+        k_ = min(len(occ1), len(occ2))
+        occ1, occ2 = occ1[:k_], occ2[:k_]
     if is_model and entry in ("gnb", "kmeans", "forest", "tree") and occ1 != occ2:
         ctx.count("skipped_occupancy_" + entry)
         return "skipped"
